@@ -760,6 +760,27 @@ Proof.
   exfalso. apply (apply_new_keeps res n (env s)); [rewrite E; discriminate | rewrite <- A2; exact E1].
 Qed.
 
+(* wave 6 (seeded C13-v2): a COMPLETED link registers nothing but the resolver's answers either: the exports of the
+   modules it binds were published when they were loaded and are not published again, so every name that had a
+   definition when the link started - whatever was registered last: a later module, an external - keeps it *)
+Lemma completed_link_publishes_nothing_proof : forall s r bs res,
+  snd (step true s (Link r)) = OLinked bs res ->
+  let s' := fst (step true s (Link r)) in
+  to_link s' = [] /\ linked s' = linked s ++ bs /\ redef s' = redef s /\ dead s' = false /\
+  env s' = apply_new (env s) res /\
+  (forall n, assoc (env s) n <> None -> assoc (env s') n = assoc (env s) n).
+Proof.
+  intros s r bs res. unfold step. destruct (dead s); [discriminate|].
+  destruct (link_mods r (to_link s) (env s) []) as [[[e' res'] bs']|[e1 res1]] eqn:Hl; simpl; [|discriminate].
+  intro H. inversion H; subst res' bs'.
+  destruct (link_mods_ok _ _ _ _ _ _ _ Hl) as (new & A1 & A2 & A3 & A4 & _). simpl in A1. subst new.
+  repeat split; auto.
+  intros n Hn. specialize (A4 n). unfold bind_spec in A4.
+  destruct (assoc (env s) n) eqn:E; [|contradiction].
+  destruct (assoc e' n) eqn:E1; [exact A4|].
+  exfalso. apply (apply_new_keeps res n (env s)); [rewrite E; discriminate | rewrite <- A2; exact E1].
+Qed.
+
 (* ------------------------------------------------------------ the two variants *)
 
 Definition is_rejection (x : op * output) : bool :=
